@@ -11,17 +11,20 @@ is assumed, the detector records are part of the state), every container:
   C06_history                   any chain of consecutive partial runs a_0 ≤ a_1 ≤ … ≤ a_n = one run a_0 → a_n
   C06_run_fdtd_eq_custom        run_fdtd (no gradient) = custom_fdtd_forward(reset_container=True, 0, T)
   C06_run_fdtd_eq_history       … = any history 0 = a_0 ≤ … ≤ a_n = T of partial runs on the reset container
-  C06_reset_zero                (finite scalars) after reset every field entry and every detector entry is 0
+  C06_reset_zero                NO finiteness hypothesis, any scalar type: after reset every field entry, every
+                                detector entry and (flag set) every recording entry is exactly 0
+  C06_reset_zero_ext            … instantiated at `Ext K` (a scalar type with a non-finite element)
   C06_reset_preserves           reset keeps materials, the recording state (default flags) and all shapes
   C06_reset_idem                reset ∘ reset = reset (same flags)
   C06_reset_eq_of_sameFrame     two containers with the same materials / recording state / shapes reset to the
                                 SAME container, whatever their fields and detector states were
   C06_rerun_deterministic       hence run_fdtd from either gives identical results, in particular from the arrays
                                 returned by a previous run (`C06_rerun_from_output`, body preserving the frame)
-  C06_reset_ext                 WITHOUT the finiteness hypothesis: over a field extended by a non-finite element,
-                                `v * 0` zeroes exactly the finite detector entries and keeps the non-finite ones;
-                                fields (zeros_like) are zeroed unconditionally.  This is the behaviour of the code
-                                as found (observation of DESIGN §7); `C06_reset_zero` is its finite case.
+  AsFound.C06_reset_ext         the pinned tree reset detector / recording states by `v * 0`: over `Ext K` that zeroes
+                                exactly the finite entries and keeps the non-finite ones — machine-checked refutation
+                                of "reset zeroes all time-dependent state" (witness examples), replayed on the
+                                implementation by K/S and repaired by a `fix:` commit; `AsFound.reset_eq_of_finite`:
+                                on finite scalars the fix changes nothing.
 -/
 import FdtdxProps.C05
 import FdtdxModel.C06
@@ -121,73 +124,77 @@ theorem C06_run_fdtd_eq_history (T : Nat) (reset : σ → σ) (body : Nat → σ
 
 end runs
 
-/-! ### reset (finite scalars: any type with `x * 0 = 0`) -/
+/-! ### reset (any scalar type — no arithmetic is involved any more) -/
 
 section reset
-variable {K : Type} [MulZeroClass K]
+variable {α : Type} [OfNat α 0]
 
-theorem timesZero_eq_zerosLike (l : List K) : timesZero l = zerosLike l := by
-  simp [timesZero, zerosLike]
-
-/-- **C06 (reset zeroes the time-dependent state)**, finite scalars -/
-theorem C06_reset_zero (c : Container K) (rr : Bool) :
-    (∀ x ∈ (c.reset true rr).fields, x = 0) ∧ (∀ x ∈ (c.reset true rr).det, x = 0) := by
-  constructor
+/-- **C06 (reset zeroes all time-dependent state)** — no finiteness hypothesis: for ANY scalar type (binary64 with
+NaN/inf, the extended scalars `Ext K` below, …) every field entry and every detector entry is exactly the literal 0
+after reset, and so is every recording entry when its flag is set. -/
+theorem C06_reset_zero (c : Container α) (rr : Bool) :
+    (∀ x ∈ (c.reset true rr).fields, x = 0) ∧ (∀ x ∈ (c.reset true rr).det, x = 0)
+    ∧ (∀ l, (c.reset true true).recording = some l → ∀ x ∈ l, x = 0) := by
+  refine ⟨?_, ?_, ?_⟩
   · intro x hx; simp [Container.reset, zerosLike] at hx; exact hx.2.symm
-  · intro x hx; simp [Container.reset, timesZero] at hx; exact hx.2.symm
+  · intro x hx; simp [Container.reset, zerosLike] at hx; exact hx.2.symm
+  · intro l hl x hx
+    simp only [Container.reset, if_true] at hl
+    cases hrec : c.recording with
+    | none => rw [hrec] at hl; cases hl
+    | some r =>
+      rw [hrec] at hl
+      simp only [Option.map_some, Option.some.injEq] at hl
+      subst hl
+      simp [zerosLike] at hx; exact hx.2.symm
 
-end reset
-
-/-- **C06 (reset keeps materials)** — and, with the default flags, the recording state; all shapes are kept.
-Holds for every scalar type (no arithmetic involved). -/
-theorem C06_reset_preserves {α : Type} [Mul α] [OfNat α 0] (c : Container α) (rd rr : Bool) :
+/-- **C06 (reset keeps materials)** — and, with the default flags, the recording state; all shapes are kept. -/
+theorem C06_reset_preserves (c : Container α) (rd rr : Bool) :
     (c.reset rd rr).mat = c.mat
     ∧ (c.reset rd false).recording = c.recording
     ∧ (c.reset rd rr).fields.length = c.fields.length
     ∧ (c.reset rd rr).det.length = c.det.length
     ∧ (c.reset false rr).det = c.det := by
   refine ⟨rfl, rfl, by simp [Container.reset, zerosLike], ?_, rfl⟩
-  cases rd <;> simp [Container.reset, timesZero]
-
-section reset2
-variable {K : Type} [MulZeroClass K]
+  cases rd <;> simp [Container.reset, zerosLike]
 
 /-- **C06 (reset is idempotent)** -/
-theorem C06_reset_idem (c : Container K) (rd rr : Bool) : (c.reset rd rr).reset rd rr = c.reset rd rr := by
+theorem C06_reset_idem (c : Container α) (rd rr : Bool) : (c.reset rd rr).reset rd rr = c.reset rd rr := by
   cases rd <;> cases rr <;> cases hrec : c.recording <;>
-    simp [Container.reset, zerosLike, timesZero, hrec, Function.comp_def]
+    simp [Container.reset, zerosLike, hrec, Function.comp_def]
 
 /-- same materials, same recording state, same shapes -/
-def sameFrame (c c' : Container K) : Prop :=
+def sameFrame (c c' : Container α) : Prop :=
   c.mat = c'.mat ∧ c.recording = c'.recording ∧ c.fields.length = c'.fields.length ∧ c.det.length = c'.det.length
 
-omit [MulZeroClass K] in
-theorem map_const_eq_of_length {β : Type} (l l' : List K) (z : β) (h : l.length = l'.length) :
+omit [OfNat α 0] in
+theorem map_const_eq_of_length {β : Type} (l l' : List α) (z : β) (h : l.length = l'.length) :
     l.map (fun _ => z) = l'.map (fun _ => z) := by
   rw [List.map_const', List.map_const', h]
 
-/-- **C06 (reset forgets the time-dependent state)**: containers of the same frame reset to the same container. -/
-theorem C06_reset_eq_of_sameFrame (c c' : Container K) (h : sameFrame c c') : c.reset = c'.reset := by
+/-- **C06 (reset forgets the time-dependent state)**: containers of the same frame reset to the same container,
+whatever (finite or not) their fields and detector states held. -/
+theorem C06_reset_eq_of_sameFrame (c c' : Container α) (h : sameFrame c c') : c.reset = c'.reset := by
   obtain ⟨hm, hr, hf, hd⟩ := h
-  simp only [Container.reset, if_true, Bool.false_eq_true, if_false, timesZero, zerosLike, mul_zero]
+  simp only [Container.reset, if_true, Bool.false_eq_true, if_false, zerosLike]
   rw [map_const_eq_of_length c.fields c'.fields 0 hf, map_const_eq_of_length c.det c'.det 0 hd, hm, hr]
 
 /-- **C06 (runs after reset are deterministic)**: `run_fdtd` (every accepted gradient strategy) started from two
 containers of the same frame returns identical results. -/
-theorem C06_rerun_deterministic (T : Nat) (g : Grad) (body : Nat → Container K → Container K)
-    (c c' : Container K) (h : sameFrame c c') :
+theorem C06_rerun_deterministic (T : Nat) (g : Grad) (body : Nat → Container α → Container α)
+    (c c' : Container α) (h : sameFrame c c') :
     runFdtd T g none false (fun x => x.reset) body c = runFdtd T g none false (fun x => x.reset) body c' := by
   have hr := C06_reset_eq_of_sameFrame c c' h
   cases g <;> simp [runFdtd, checkpointedRun, reversibleRun, hr]
 
-/-- … in particular a second run started from the arrays returned by a first run reproduces it, as long as one
-time step does not change materials, recording state or shapes (a property of `forward`). -/
-theorem C06_rerun_from_output (T : Nat) (body : Nat → Container K → Container K)
-    (hbody : ∀ t x, sameFrame (body t x) x) (c : Container K) :
+/-- … in particular a second run started from the arrays returned by a first run (diverged or not) reproduces it,
+as long as one time step does not change materials, recording state or shapes (a property of `forward`). -/
+theorem C06_rerun_from_output (T : Nat) (body : Nat → Container α → Container α)
+    (hbody : ∀ t x, sameFrame (body t x) x) (c : Container α) :
     ∀ out, runFdtd T .none none false (fun x => x.reset) body c = .ok out →
       runFdtd T .none none false (fun x => x.reset) body out.2 = .ok out := by
   intro out hout
-  have hframe : ∀ n (s : Nat × Container K), sameFrame ((step body)^[n] s).2 s.2 := by
+  have hframe : ∀ n (s : Nat × Container α), sameFrame ((step body)^[n] s).2 s.2 := by
     intro n
     induction n with
     | zero => intro s; exact ⟨rfl, rfl, rfl, rfl⟩
@@ -206,9 +213,9 @@ theorem C06_rerun_from_output (T : Nat) (body : Nat → Container K → Containe
     exact ⟨h1.trans p1, h2.trans p2, h3.trans p3, h4.trans p4⟩
   rw [C06_rerun_deterministic T .none body out.2 c hsf, hout]
 
-end reset2
+end reset
 
-/-! ### the code as found on scalars with a non-finite element -/
+/-! ### scalars with a non-finite element -/
 
 /-- a scalar type with one non-finite element absorbing multiplication (NaN; `inf * 0` is NaN too) -/
 inductive Ext (K : Type) where
@@ -223,32 +230,56 @@ instance {K : Type} [Mul K] : Mul (Ext K) :=
 
 instance {K : Type} [OfNat K 0] : OfNat (Ext K) 0 := ⟨.fin 0⟩
 
-/-- **C06 (reset, no finiteness hypothesis)**: `zeros_like` zeroes every field entry; `v * 0` zeroes exactly the
-finite detector entries and leaves the non-finite ones non-finite. -/
+/-- `C06_reset_zero` at the extended scalars: non-finite entries are zeroed as well -/
+theorem C06_reset_zero_ext {K : Type} [OfNat K 0] (c : Container (Ext K)) :
+    (∀ x ∈ c.reset.fields, x = Ext.fin 0) ∧ (∀ x ∈ c.reset.det, x = Ext.fin 0) :=
+  ⟨(C06_reset_zero c false).1, (C06_reset_zero c false).2.1⟩
+
+/-! ### the pinned tree (`v * 0`): refutation of "reset zeroes all time-dependent state" -/
+
+namespace AsFound
+
+/-- as found, over scalars with a non-finite element: `zeros_like` zeroes every field entry; `v * 0` zeroes exactly
+the finite detector entries and leaves the non-finite ones non-finite. -/
 theorem C06_reset_ext {K : Type} [MulZeroClass K] (c : Container (Ext K)) :
-    (∀ x ∈ c.reset.fields, x = Ext.fin 0)
-    ∧ c.reset.det = c.det.map (fun v => match v with | .fin _ => Ext.fin 0 | .nan => Ext.nan) := by
+    (∀ x ∈ (AsFound.reset c).fields, x = Ext.fin 0)
+    ∧ (AsFound.reset c).det = c.det.map (fun v => match v with | .fin _ => Ext.fin 0 | .nan => Ext.nan) := by
   constructor
   · intro x hx
-    simp [Container.reset, zerosLike] at hx
+    simp [AsFound.reset, zerosLike] at hx
     exact hx.2.symm
-  · simp only [Container.reset, if_true, timesZero]
+  · simp only [AsFound.reset, if_true, timesZero]
     apply List.map_congr_left
     intro v _
     cases v with
     | fin x => show Ext.fin (x * 0) = Ext.fin 0; rw [mul_zero]
     | nan => rfl
 
-/-- finite detector states are zeroed (the hypothesis under which the property's sentence holds) -/
+/-- as found the sentence held only for finite detector states -/
 theorem C06_reset_ext_finite {K : Type} [MulZeroClass K] (c : Container (Ext K))
-    (hfin : ∀ v ∈ c.det, ∃ x, v = Ext.fin x) : ∀ v ∈ c.reset.det, v = Ext.fin 0 := by
+    (hfin : ∀ v ∈ c.det, ∃ x, v = Ext.fin x) : ∀ v ∈ (AsFound.reset c).det, v = Ext.fin 0 := by
   intro v hv
   rw [(C06_reset_ext c).2] at hv
   obtain ⟨w, hw, rfl⟩ := List.mem_map.mp hv
   obtain ⟨x, rfl⟩ := hfin w hw
   rfl
 
-/-! ### non-vacuity and the excluded point -/
+/-- on finite scalars (`x * 0 = 0`) the as-found reset and the fixed one coincide: the fix changes nothing there -/
+theorem reset_eq_of_finite {K : Type} [MulZeroClass K] (c : Container K) (rd rr : Bool) :
+    AsFound.reset c rd rr = c.reset rd rr := by
+  cases rd <;> cases rr <;> cases hrec : c.recording <;>
+    simp [AsFound.reset, Container.reset, timesZero, zerosLike, hrec]
+
+/-- witness: a non-finite detector entry survives the as-found reset (and the next run starts from it) … -/
+example : (AsFound.reset (α := Ext Int) ⟨[.nan, .fin 2], [.fin 3, .nan], none, [.fin 7]⟩)
+    = ⟨[.fin 0, .fin 0], [.fin 0, .nan], none, [.fin 7]⟩ := by decide
+/-- … so two containers of the same frame do NOT reset to the same container as found -/
+example : AsFound.reset (α := Ext Int) ⟨[.fin 0], [.nan], none, []⟩ ≠ AsFound.reset ⟨[.fin 0], [.fin 1], none, []⟩ := by
+  decide
+
+end AsFound
+
+/-! ### non-vacuity -/
 
 -- hypotheses of C06_split / C06_history are satisfiable by a non-trivial history
 example : (2 : Nat) ≤ 5 ∧ 5 ≤ 9 ∧ 9 - 2 ≤ 10 := by omega
@@ -256,11 +287,11 @@ example : List.IsChain (· ≤ ·) [0, 3, 3, 7, 10] ∧ [0, 3, 3, 7, 10].getLast
 example : runHistory 10 logBody [0, 3, 3, 7, 10] (0, []) = (10, [0, 1, 2, 3, 4, 5, 6, 7, 8, 9]) := by decide
 -- as found, the loop bound is the total step count: a window longer than T is cut short (hypothesis c - a ≤ T)
 example : customForward 4 false id logBody 3 9 [] = (7, [3, 4, 5, 6]) := by decide
--- sameFrame is satisfiable by containers with different time-dependent state
-example : sameFrame (K := Int) ⟨[1, 2], [3], none, [7]⟩ ⟨[0, 5], [9], none, [7]⟩ := by
+-- sameFrame is satisfiable by containers with different (also non-finite) time-dependent state
+example : sameFrame (α := Ext Int) ⟨[.fin 1, .nan], [.nan], none, [.fin 7]⟩ ⟨[.fin 0, .fin 5], [.fin 9], none, [.fin 7]⟩ := by
   unfold sameFrame; decide
--- the excluded point: a non-finite detector entry survives reset, a non-finite field entry does not
+-- the fixed reset zeroes non-finite detector entries too
 example : (Container.reset (α := Ext Int) ⟨[.nan, .fin 2], [.fin 3, .nan], none, [.fin 7]⟩)
-    = ⟨[.fin 0, .fin 0], [.fin 0, .nan], none, [.fin 7]⟩ := by decide
+    = ⟨[.fin 0, .fin 0], [.fin 0, .fin 0], none, [.fin 7]⟩ := by decide
 
 end Fdtdx.C06
